@@ -3,6 +3,7 @@ package engine
 import (
 	"fmt"
 	"go/token"
+	"go/types"
 	"sort"
 	"strings"
 
@@ -302,6 +303,16 @@ func (q *PathQuery) Run() ([]*PathState, error) {
 				st.ArmedAt = len(st.Blocks) - 1
 			}
 			switch x := in.(type) {
+			case *ssa.Alloc:
+				// a fresh cell holds its zero value: nil for nillable element types
+				if cells[x] != cellNone && nillable(Deref(x.Type())) {
+					nm := make(map[*ssa.Alloc]ssa.Value, len(st.mem)+1)
+					for k, v := range st.mem {
+						nm[k] = v
+					}
+					nm[x] = ssa.NewConst(nil, Deref(x.Type()))
+					st.mem = nm
+				}
 			case *ssa.Store:
 				if al, ok := x.Addr.(*ssa.Alloc); ok && cells[al] != cellNone {
 					nm := make(map[*ssa.Alloc]ssa.Value, len(st.mem)+1)
@@ -471,6 +482,18 @@ func (q *PathQuery) assume(st *PathState, t *ssa.If, outcome bool) (*PathState, 
 					return nil, false
 				}
 				return st, true
+			}
+		}
+	}
+	// len(m)==0 ⊢ no key is present: a successful comma-ok lookup in a map known empty is infeasible
+	if lit.Op == token.ILLEGAL && lit.Val {
+		if ex, ok := lit.X.(*ssa.Extract); ok && ex.Index == 1 {
+			if lk, ok := ex.Tuple.(*ssa.Lookup); ok && lk.CommaOk {
+				for _, l := range st.Lits {
+					if m := emptyMapOf(l); m != nil && SameExpr(m, lk.X) {
+						return nil, false
+					}
+				}
 			}
 		}
 	}
@@ -746,4 +769,37 @@ func freeVarWritten(fn *ssa.Function, fv *ssa.FreeVar, depth int) bool {
 		}
 	}
 	return false
+}
+
+func nillable(t types.Type) bool {
+	switch t.Underlying().(type) {
+	case *types.Pointer, *types.Interface, *types.Map, *types.Slice, *types.Chan, *types.Signature:
+		return true
+	}
+	return false
+}
+
+// emptyMapOf: if the literal states len(m) == 0 (as true), returns m.
+func emptyMapOf(l Lit) ssa.Value {
+	if l.Op != token.EQL || !l.Val {
+		return nil
+	}
+	x, y := l.X, l.Y
+	if _, isC := x.(*ssa.Const); isC {
+		x, y = y, x
+	}
+	lc, ok := x.(*ssa.Call)
+	if !ok {
+		return nil
+	}
+	if b, ok := lc.Call.Value.(*ssa.Builtin); !ok || b.Name() != "len" {
+		return nil
+	}
+	if z, ok := ConstInt(y); !ok || z != 0 {
+		return nil
+	}
+	if _, isMap := lc.Call.Args[0].Type().Underlying().(*types.Map); !isMap {
+		return nil
+	}
+	return lc.Call.Args[0]
 }
